@@ -271,13 +271,6 @@ fn c15_readline_at_eof() {
     readline_lemma(1, true, false);
     readline_lemma(2, true, false);
 }
-#[kani::proof]
-#[kani::unwind(7)]
-fn c15_readline_or_eof_at_eof_t() {
-    readline_lemma(0, true, true);
-    readline_lemma(1, true, true);
-    readline_lemma(2, true, true);
-}
 
 #[cfg(test)]
 mod playback {
